@@ -4,7 +4,7 @@
     input - literals, unaddressed names, repeats, missing required items, and recursively the
     mistakes inside each item's value); and it returns a value exactly when there is none. *)
 From DarlingModel Require Import Run.Recv Run.RecvProofs Run.LoopProofs Run.LevelProofs Run.TotalProofs Spec.C01 Conv.RoutingProofs
-  Run.SpecSound Run.SpecComplete Err.ErrProofs.
+  Run.SpecSound Run.SpecComplete Run.InsideProofs Run.LeafTotal Err.ErrProofs.
 Local Open Scope string_scope.
 Local Open Scope list_scope.
 
@@ -826,9 +826,11 @@ Section Count.
   Definition dwf_fields (l : list (finfo * ty)) : Prop :=
     (fix go (l : list (finfo * ty)) : Prop := match l with [] => True | x :: r => dwf (snd x) /\ go r end) l.
 
-  Definition kwf (t : ty) : Prop := wf_spec t /\ cwf t /\ dwf t.
+  (** the library leaf targets the declaration mentions return proper errors *)
+  Variable ok_leaf : Targets.target -> Prop.
+  Hypothesis leaf_pos : forall tg, ok_leaf tg -> forall m e, from_meta (leaf tg) m = Err e -> (0 < len e)%N.
 
-  Hypothesis leaf_pos : forall tg m e, from_meta (leaf tg) m = Err e -> (0 < len e)%N.
+  Definition kwf (t : ty) : Prop := wf_spec t /\ cwf t /\ dwf t /\ leaves_ok ok_leaf t.
 
   Lemma hookless_expr_len F :
     o_value F = None -> o_string F = None -> o_bool F = None -> o_char F = None ->
@@ -849,11 +851,11 @@ Section Count.
 
   Lemma count_fields l :
     Forall (fun ft : finfo * ty => kwf (snd ft) -> count_ty (snd ft)) l ->
-    wf_spec_fields l -> cwf_fields l -> dwf_fields l ->
+    wf_spec_fields l -> cwf_fields l -> dwf_fields l -> fields_ok ok_leaf l ->
     Forall (fun ft : finfo * ty => count_ty (snd ft)) l
     /\ Forall (fun ft : finfo * ty => forall m v, is_meta m = true -> from_meta (impl (snd ft)) m = Ok v -> expected (snd ft) m = Some v) l.
   Proof.
-    induction 1 as [|x r Hx _ IH]; [split; constructor|]. intros [W1 W2] [C1 C2] [D1 D2]. destruct (IH W2 C2 D2) as [A B].
+    induction 1 as [|x r Hx _ IH]; [split; constructor|]. intros [W1 W2] [C1 C2] [D1 D2] [L1 L2]. destruct (IH W2 C2 D2 L2) as [A B].
     split; constructor; auto.
     - apply Hx. repeat split; assumption.
     - exact (expected_complete pf reparse reparse_arr reparse_preds sugg sim interp_with interp_fn (snd x) C1).
@@ -897,18 +899,18 @@ Section Count.
   (** ** the theorem *)
   Theorem mistakes_count : forall t, kwf t -> count_ty t.
   Proof.
-    induction t as [tg | t IH | t IH | t IH | c fields IH | c t IH | c | c w vs IH] using ty_ind'; intros [W [C D]] m M;
-      cbn [wf_spec cwf dwf] in W, C, D.
-    - cbn [C01.mistakes impl_of]. destruct (from_meta (leaf tg) m) as [v|e|mm] eqn:R; auto. split; [reflexivity|]. now apply (leaf_pos tg m).
-    - pose proof (IH (conj W (conj C D)) m M) as K. unfold from_meta. cbn [impl_of option_fm o_meta C01.mistakes].
+    induction t as [tg | t IH | t IH | t IH | c fields IH | c t IH | c | c w vs IH] using ty_ind'; intros [W [C [D LO]]] m M;
+      cbn [wf_spec cwf dwf leaves_ok] in W, C, D, LO.
+    - cbn [C01.mistakes impl_of]. destruct (from_meta (leaf tg) m) as [v|e|mm] eqn:R; auto. split; [reflexivity|]. now apply (leaf_pos tg LO m).
+    - pose proof (IH (conj W (conj C (conj D LO))) m M) as K. unfold from_meta. cbn [impl_of option_fm o_meta C01.mistakes].
       destruct (from_meta (impl t) m); cbn [map_ok]; exact K.
-    - pose proof (IH (conj W (conj C D)) m M) as K. unfold from_meta at 1. cbn [impl_of ptr_fm o_meta C01.mistakes].
+    - pose proof (IH (conj W (conj C (conj D LO))) m M) as K. unfold from_meta at 1. cbn [impl_of ptr_fm o_meta C01.mistakes].
       destruct (from_meta (impl t) m); cbn [map_ok]; exact K.
     - destruct C.
     - (* a derived struct *)
       destruct W as [Wf [Lw NFI]]. destruct C as [Cf [Lc _]]. destruct D as [Df [Ld Dc]].
-      fold (wf_spec_fields fields) in Wf. fold (cwf_fields fields) in Cf. fold (dwf_fields fields) in Df.
-      destruct (count_fields fields IH Wf Cf Df) as [IHk IHc].
+      fold (wf_spec_fields fields) in Wf. fold (cwf_fields fields) in Cf. fold (dwf_fields fields) in Df. fold (fields_ok ok_leaf fields) in LO.
+      destruct (count_fields fields IH Wf Cf Df LO) as [IHk IHc].
       unfold from_meta. cbn [impl_of o_meta].
       destruct m as [i l | i p | i p ti items | i p ti es msg | i p e]; try discriminate; cbn [default_from_meta].
       + unfold from_word. cbn [o_word C01.mistakes]. destruct (ci_from_word c) as [f|]; [|one_leaf]. unfold run_fn.
@@ -950,7 +952,7 @@ Section Count.
           split; [reflexivity|lia].
         * exact I.
     - (* a newtype struct *)
-      pose proof (IH (conj W (conj C D)) m M) as K. unfold from_meta. cbn [impl_of o_meta C01.mistakes].
+      pose proof (IH (conj W (conj C (conj D LO))) m M) as K. unfold from_meta. cbn [impl_of o_meta C01.mistakes].
       destruct (from_meta (impl t) m); cbn [map_err map_ok]; rewrite ?len_with_span; exact K.
     - (* a unit struct *)
       unfold from_meta. cbn [impl_of o_meta C01.mistakes].
@@ -982,12 +984,12 @@ Section Count.
                      | Some (Panic _) => True
                      | None => list_mistakes vs inner = 1%N
                      end).
-        { clear -IH W C D Mi with_pos fn_pos leaf_pos. revert W C D.
+        { clear -IH W C D LO Mi with_pos fn_pos leaf_pos. revert W C D LO.
           induction IH as [|[vi fl] rest Hx _ IHr]; cbn [list_mistakes enum_arm map snd]; [reflexivity|].
-          intros [[Wf Lw] Wr] [[Cf Lc] Cr] [[Df Ld] Dr].
+          intros [[Wf Lw] Wr] [[Cf Lc] Cr] [[Df Ld] Dr] [Lf Lr].
           destruct (negb (vi_skip vi) && str_eqb (vi_name vi) (item_name inner))%bool; [|now apply IHr].
-          fold (wf_spec_fields fl) in Wf. fold (cwf_fields fl) in Cf. fold (dwf_fields fl) in Df. cbn [snd] in Hx.
-          destruct (count_fields fl Hx Wf Cf Df) as [IHk IHc].
+          fold (wf_spec_fields fl) in Wf. fold (cwf_fields fl) in Cf. fold (dwf_fields fl) in Df. fold (fields_ok ok_leaf fl) in Lf. cbn [snd] in Hx, Lf.
+          destruct (count_fields fl Hx Wf Cf Df Lf) as [IHk IHc].
           destruct (vi_style vi).
           - destruct inner; try reflexivity; one_leaf.
           - destruct fl as [|[f0 t0] fr]; [exact I|]. cbn [map snd].
@@ -1106,12 +1108,35 @@ Section Dwfb.
       clear -Hx H1. induction Hx as [|y s Hy _ IHs]; [exact I|]. apply andb_true_iff in H1 as [A B]. split; [now apply Hy|now apply IHs].
   Qed.
 
-  Definition kwfb (t : ty) : bool := wf_specb t && cwfb t && dwfb t.
+  (** all leaf targets of a declaration are plain library targets *)
+  Fixpoint plain_leavesb (t : ty) : bool :=
+    let go_fields :=
+      fix go (l : list (finfo * ty)) : bool :=
+        match l with [] => true | x :: r => plain_leavesb (snd x) && go r end in
+    match t with
+    | TLeaf tg => plain tg
+    | TUnitR _ => true
+    | TOpt t' | TBox t' | TRes t' | TNewtypeR _ t' => plain_leavesb t'
+    | TStructR _ fields => go_fields fields
+    | TEnumR _ _ vs =>
+        (fix gov (l : list (vinfo * list (finfo * ty))) : bool :=
+           match l with [] => true | x :: r => go_fields (snd x) && gov r end) vs
+    end.
 
-  Lemma kwfb_sound t : kwfb t = true -> kwf interp_fn t.
+  Lemma plain_leavesb_sound : forall t, plain_leavesb t = true -> leaves_ok (fun tg => plain tg = true) t.
   Proof.
-    unfold kwfb, kwf. intros H. apply andb_true_iff in H as [H H3]. apply andb_true_iff in H as [H1 H2].
-    split; [now apply wf_specb_sound|]. split; [now apply cwfb_sound|now apply dwfb_sound].
+    induction t as [tg | t IH | t IH | t IH | c fields IH | c t IH | c | c w vs IH] using ty_ind'; cbn [plain_leavesb leaves_ok]; auto.
+    - intros H. induction IH as [|x r Hx _ IHr]; [exact I|]. apply andb_true_iff in H as [A B]. split; [now apply Hx|now apply IHr].
+    - intros H. induction IH as [|x r Hx _ IHr]; [exact I|]. apply andb_true_iff in H as [H1 H2]. split; [|now apply IHr].
+      clear -Hx H1. induction Hx as [|y s Hy _ IHs]; [exact I|]. apply andb_true_iff in H1 as [A B]. split; [now apply Hy|now apply IHs].
+  Qed.
+
+  Definition kwfb (t : ty) : bool := wf_specb t && cwfb t && dwfb t && plain_leavesb t.
+
+  Lemma kwfb_sound t : kwfb t = true -> kwf interp_fn (fun tg => plain tg = true) t.
+  Proof.
+    unfold kwfb, kwf. intros H. apply andb_true_iff in H as [H H4]. apply andb_true_iff in H as [H H3]. apply andb_true_iff in H as [H1 H2].
+    split; [now apply wf_specb_sound|]. split; [now apply cwfb_sound|]. split; [now apply dwfb_sound|now apply plain_leavesb_sound].
   Qed.
 End Dwfb.
 
